@@ -39,7 +39,10 @@ ItemVerdict(kind, got, want, full) ==
        ELSE IF full /\ ~FramesOK(got.frames, want.frames) THEN "attribution"
        ELSE "ok"
 
-Disturb(gs, except) == [j \in 1..Len(gs) |-> IF j # except /\ ~gs[j].done THEN [gs[j] EXCEPT !.clean = FALSE] ELSE gs[j]]
+\* what another listing does disturbs a listing only once it has been started (its first next() resets everything it
+\* reads: thread map, a fresh TracesParser) - except a callstack listing, whose image table is reset when it is REQUESTED
+Disturb(gs, except) == [j \in 1..Len(gs) |-> IF j # except /\ ~gs[j].done /\ (gs[j].started \/ gs[j].kind = "cs")
+                                               THEN [gs[j] EXCEPT !.clean = FALSE] ELSE gs[j]]
 
 \* One action of the session applied to W = [so, gens]: [v |-> "ok" or the failing clause, W |-> state after it].
 \* The fold is a STATE MACHINE (one TLC state per caller action), not a recursive operator: every step is evaluated
@@ -47,7 +50,10 @@ Disturb(gs, except) == [j \in 1..Len(gs) |-> IF j # except /\ ~gs[j].done THEN [
 ActStep(o, tables, W, a) ==
   \* a dump cut in the middle of a record: the listing ends with an error once the complete records are used up - that IS
   \* its end (C06); an error anywhere else is a violation
-  IF "err" \in DOMAIN a /\ ~("cutend" \in DOMAIN a) THEN [v |-> "raised", W |-> W]
+  IF "err" \in DOMAIN a /\ ~("cutend" \in DOMAIN a) /\ a.op # "badopen" THEN [v |-> "raised", W |-> W]
+  \* a request on something that is not a dump is refused when the method is called: no listing, no change;
+  \* a listing the caller drops (last reference deleted, finalisers run) changes nothing for the others
+  ELSE IF a.op = "badopen" \/ a.op = "drop" THEN [v |-> "ok", W |-> W]
   ELSE IF a.op = "cfg" THEN
     [v |-> "ok",
      W |-> [so |-> SetCfgObj(W.so, a.cfg, a.inplace),
